@@ -566,8 +566,27 @@ AGG = ["k_store_arr_int3", "k_store_arr_long3", "k_store_arr_long22", "k_load_ar
        "k_load_field_a", "k_load_field_c", "k_store_ptrarr2", "k_store_struct", "k_load_struct", "k_store_field_b", "k_load_field_b"]
 
 
+def const_src(t):
+    """loads through a pointer to const (stores do not compile, rightly)"""
+    T = t.cxx
+    return ["K uint64_t k_loadu_%s(uint64_t base, uint64_t p) { S::g_base = base; auto t = mk_tainted<%s*, S>(p); auto x = t->UNSAFE_unverified(); return (uint64_t)x; }" % (t.tag, T),
+            "K uint64_t k_cav_%s(uint64_t base, uint64_t p) { S::g_base = base; auto t = mk_tainted<%s*, S>(p); using TT = std::remove_cv_t<%s>; "
+            "auto x = t.copy_and_verify([](std::unique_ptr<%s> v) { return v ? *v : TT{}; }); return (uint64_t)x; }" % (t.tag, T, T, T)]
+
+
+CONST_TYPES = [TY("cllong", "const long long", 64, 64, True), TY("cullong", "const unsigned long long", 64, 64, False), TY("clong", "const long", 64, 32, True),
+               TY("cshort", "const short", 16, 16, True), TY("cuint", "const unsigned int", 32, 32, False)]
+
+
 def jobs(tier, seed):
     out = []
+    csrc = [C.PRELUDE, "using S = B32;", HEAD]
+    cchk = []
+    for t in CONST_TYPES:
+        csrc += const_src(t)
+        for f in ("loadu", "cav"):     # tainted<const T> cannot be initialised from *p on this tree (does not compile)
+            cchk.append(dict(name="B32 %s %s" % (f, t.tag), fn=check_load, kw=dict(t=t, log=32, form=f)))
+    out.append(Job("C07_B32_const", "\n".join(csrc) + "\n", cchk))
     backends = [("B32", 32, 4)] + ([("B16", 16, 2)] if tier == "thorough" else [])
     for sbx, log, pb in backends:
         tys = types(pb)
